@@ -250,7 +250,9 @@ class ExecImpl:
                     eq = op.index("=")
                     args = tuple(parse_val(a) for a in op[2:eq])
                     v = parse_val(op[eq + 1])
-                    # the library itself binds the subscript (and refuses one that does not bind)
+                    # the assignment is made for real, also with arguments that do not fit the signature: that
+                    # modelx refuses it (TypeError from its own binding of the arguments) before changing
+                    # anything is an observation, not something the harness may answer in its place
                     c[args] = v
                     return "ok"
                 if kind == "clearat":
